@@ -26,6 +26,19 @@ def gen_mask(rng, horizon):
 
 
 def exc_factory(rng):
+    if rng.random() < 0.08:
+        # a fan-out destination that collects the failures of its sinks and raises them as one exception group (one leaf, several,
+        # nested): still ONE failure of that destination, with the group's own class and text
+        shape = rng.choice(["one", "two", "nested"])
+
+        def make_group(i, shape=shape):
+            leaves = [ConnectionError("sink a, call %d" % i), TimeoutError("sink b, call %d" % i), ValueError("sink c")]
+            if shape == "one":
+                return ExceptionGroup("fan-out failed, call %d" % i, leaves[:1])
+            if shape == "two":
+                return ExceptionGroup("fan-out failed, call %d" % i, leaves[:2])
+            return ExceptionGroup("fan-out failed, call %d" % i, [leaves[0], ExceptionGroup("inner", leaves[1:])])
+        return "ExceptionGroup:" + shape, make_group
     cls = rng.choice(DEST_EXCS)
     if rng.random() < 0.2:
         # a destination that keeps one exception object and raises it again on every failure (`raise self._error`)
